@@ -660,6 +660,13 @@ class FuncAnalysis:
                 k = r[1]
                 if k >= len(actual_addrs) or actual_addrs[k] is None:
                     return None
+                # callee access at  scale * parameter j + constant  and this call passes a constant for j:
+                # the offset is a constant here
+                s0 = addr.segs[0]
+                if s0.off is None and s0.el and s0.el[0] == "argoff" and s0.el[1] < len(actual_terms):
+                    t = actual_terms[s0.el[1]]
+                    if t is not None and t[0] == "c":
+                        addr = Addr(addr.root, (Seg(s0.ty, s0.el[2] * t[1] + s0.el[3], None),) + addr.segs[1:])
                 return rebase(addr, actual_addrs[k])
             if r[0] in ("heap", "heapi"):
                 # the callee's fresh block: named after this call site in the caller
@@ -839,6 +846,16 @@ class FuncAnalysis:
             o2 = [x for x in i["ops"] if x[0] != "c"]
             if len(o2) == 1:
                 return self.cond_facts(o2[0], not truth, st)
+        if i["op"] == "icmp" and i["pred"] in ("ne", "eq") and i["ops"][1][0] == "c" and int(i["ops"][1][1]) == 0:
+            # (int)(a < b) != 0  is  a < b : a boolean that travelled through an integer (inlined predicate helper)
+            z = i["ops"][0]
+            while z[0] == "i" and self.f.insts[z[1]]["op"] in ("zext", "sext"):
+                inner = self.f.insts[z[1]]["ops"][0]
+                if inner[0] != "i" or self.f.insts[inner[1]]["type"] != "i1":
+                    break
+                z = inner
+            if z != i["ops"][0] and z[0] == "i" and self.f.insts[z[1]]["type"] == "i1":
+                return self.cond_facts(z, truth if i["pred"] == "ne" else (not truth), st)
         if i["op"] == "icmp":
             p = i["pred"]
             a = self.term(i["ops"][0], st)
